@@ -15,7 +15,7 @@ ASSUMPTIONS = [
 ]
 
 STATS = ["np.mean", "np.median", "np.max", "range", "second_smallest", "first", "last", "method_std", "sample_std", "lag1_autocorr",
-         "roughness", "iqr"]
+         "roughness", "iqr", "log_var", "inv_std"]
 
 
 @st.composite
@@ -46,7 +46,7 @@ def cases(draw, tier):
     index = draw(D.index_spec())
     npre = draw(st.integers(max(n, 8), 40)) if draw(st.integers(0, 3)) == 0 else None
     # what happens after the first fit / predict on the same anomaliser object
-    second = draw(st.sampled_from([None, "set_params_refit", "refill_predict", "refill_refit", None]))
+    second = draw(st.sampled_from([None, "set_params_refit", "refill_predict", "refill_refit", None, "new_bounds_refit"]))
     ispec2 = None
     if second == "set_params_refit":
         ispec2, n2_min = draw(inner_spec(inner, n if fixed else None))
@@ -162,6 +162,16 @@ def check(case):
             y2 = det.fit(Xc).predict(Xc)
         want2, _, cpts2, _ = expected(x, x)
         compare(y2, want2, cpts2, "after set_params on the wrapped detector and a new fit: ")
+    elif second == "new_bounds_refit":
+        # the user tightens the bounds on the object they have (plain attributes, as get_params reports them) and fits again
+        new_lo, new_hi = (lo + 0.5 * abs(lo) + 0.25, hi) if case["lo"] != "-inf" and lo + 0.5 * abs(lo) + 0.25 <= hi else (lo, hi)
+        new_hi = new_hi - 0.25 * abs(new_hi) - 0.125 if np.isfinite(new_hi) and new_hi - 0.25 * abs(new_hi) - 0.125 >= new_lo else new_hi
+        with sut("bounds re-assigned, StatThresholdAnomaliser.fit/predict again"):
+            det.stat_lower, det.stat_upper = new_lo, new_hi
+            y2 = det.fit(Xc).predict(Xc)
+        lo, hi = new_lo, new_hi
+        want2, _, cpts2, _ = expected(x, x)
+        compare(y2, want2, cpts2, "after the bounds were re-assigned and a new fit: ")
     elif second in ("refill_predict", "refill_refit"):
         # the caller's buffer is refilled in place with the next batch
         x2 = np.asarray(case["x2"], dtype=float)
